@@ -83,6 +83,7 @@ type fake struct {
 	byLat    map[string]*dev // latitude as the server formats it -> device
 	targets  map[uint32]bool // weekban: devices banned while their own request is pending
 	lastHist atomic.Int64    // unix nanoseconds of the last historical request
+	down     atomic.Bool     // every request is answered 503
 	armed    atomic.Bool     // phase B: act on week-data requests
 	logins   atomic.Int64
 	regions  atomic.Int64
@@ -139,6 +140,10 @@ func (f *fake) ban(d *dev, why string) {
 }
 
 func (f *fake) ServeHTTP(w http.ResponseWriter, r *http.Request) {
+	if f.down.Load() {
+		http.Error(w, "service unavailable", 503)
+		return
+	}
 	switch r.URL.Path {
 	case "/login":
 		f.logins.Add(1)
@@ -314,7 +319,8 @@ func Main() {
 	}
 	f := &fake{scenario: scenario, devs: map[string]*dev{}, byLat: map[string]*dev{}, rng: rng}
 	startFake(work, f)
-	if scenario == "life" {
+	if scenario == "life" || scenario == "life-wtdown" {
+		f.down.Store(scenario == "life-wtdown") // WattTime answers 503 to everything: nothing else may depend on it
 		emit(lifeEpisode(work, seed, f))
 		return
 	}
